@@ -30,8 +30,8 @@ type machine interface {
 	getV(lane, i int) uint32
 	setM0(v uint32)
 	getM0() uint32
-	snapS() []uint32  // all SGPRs
-	snapV() [][]byte  // per lane, 1024 bytes
+	snapS() []uint32 // all SGPRs
+	snapV() [][]byte // per lane, 1024 bytes
 	kind() string
 }
 
@@ -149,9 +149,9 @@ type access struct {
 }
 
 type region struct {
-	base  uint64
-	data  []byte
-	acc   []access
+	base   uint64
+	data   []byte
+	acc    []access
 	faults int
 }
 
